@@ -77,6 +77,14 @@ pub fn hand(b: &mut Builder) {
     ] {
         b.program(n, sc(s));
     }
+    b.program("f32", sc(Sc::F32));
+    for t in INT_TYPES.iter() {
+        let n = t.name.rsplit("::").next().unwrap().to_lowercase();
+        b.program(&n, sc(Sc::Int(*t)));
+    }
+    b.program("vec_nonzero_i8", Desc::Vec(bx(sc(Sc::Int(INT_TYPES[12])))));
+    b.program("tuple_ints", Desc::Tuple(vec![sc(Sc::Int(INT_TYPES[0])), sc(Sc::Int(INT_TYPES[6])), sc(Sc::Int(INT_TYPES[11]))]));
+    b.program("hashset_i64", Desc::HashSet(bx(sc(Sc::Int(INT_TYPES[2])))));
     // --- std containers -----------------------------------------------------------------------
     let p = b.p();
     b.program("vec_probe", Desc::Vec(bx(p)));
@@ -464,7 +472,10 @@ fn gen_leaf(b: &mut Builder, rng: &mut Rng) -> Desc {
     if rng.chance(2, 3) {
         b.p()
     } else {
-        sc(*rng.pick(&[Sc::Bool, Sc::U8, Sc::I32, Sc::U64, Sc::Str, Sc::Char, Sc::F64, Sc::Unit]))
+        match rng.below(3) {
+            0 => sc(Sc::Int(*rng.pick(&INT_TYPES))),
+            _ => sc(*rng.pick(&[Sc::Bool, Sc::U8, Sc::I32, Sc::U64, Sc::Str, Sc::Char, Sc::F64, Sc::F32, Sc::Unit])),
+        }
     }
 }
 
